@@ -42,7 +42,10 @@ def diff_locus(d):
 class HistoryRun(object):
   """Executes prelude + bundles on a Doc, calling hooks; collects class labels."""
 
-  def __init__(self, case, make_engine=None, snapshots=True):
+  def __init__(self, case, make_engine=None, snapshots=True, settle=True):
+    # settle: after a bundle that failed, apply ['Calculate'] as a bundle of its own, so that what the
+    # rollback left dirty (a C04 matter, see known findings) is flushed before the history goes on.
+    self.settle = settle
     self.case = case
     self.doc = Doc(make_engine=make_engine)
     self.snapshots = snapshots
@@ -72,8 +75,12 @@ class HistoryRun(object):
     else:
       self.n_fail += 1
       self.labels.add('rejected-bundle')
-    if on_step is not None:
-      return on_step(st)
+    stop = on_step(st) if on_step is not None else None
+    if stop:
+      return stop
+    if not r.ok and self.settle and uas != [['Calculate']]:
+      self.labels.add('settled-after-failed-bundle')
+      return self._exec([['Calculate']], is_prelude, on_step)
     return None
 
   def run(self, on_step=None):
